@@ -105,7 +105,41 @@ def summarize(case, res, viols, mod):
             out['state_digests'] = mod.state_digests(case, res)
         except Exception:
             out['state_digests'] = []
+    elif res.recorder is not None:
+        try:
+            out['state_digests'] = committed_state_digests(res.recorder)
+        except Exception:
+            out['state_digests'] = []
     return out
+
+
+def committed_state_digests(rec, cap=400):
+    """Digest of the committed global state after every commit of a run:
+    the multiset of (table, row name, state, accepted/processed flags) over
+    the execution, scheduler and trigger tables - ids, data and time are left
+    out, so two runs reach the 'same state' when the same named things are
+    in the same lifecycle states."""
+    rows = {}
+    out = set()
+    for cno, step, tlabel, evs in rec.commits[:cap]:
+        for e in evs:
+            key = (e.table, e.id)
+            if e.op == 'delete':
+                rows.pop(key, None)
+                continue
+            r = rows.setdefault(key, {})
+            for k in ('name', 'state', 'accepted', 'processed',
+                      'workflow_name', 'func_name', 'captured_at',
+                      'processing', 'remaining_executions'):
+                if k in e.vals:
+                    v = e.vals[k]
+                    if k == 'captured_at':
+                        v = v is not None
+                    r[k] = v
+        items = sorted((k[0],) + tuple(sorted(
+            (a, str(b)) for a, b in v.items())) for k, v in rows.items())
+        out.add(hashlib.sha1(repr(items).encode()).hexdigest()[:12])
+    return sorted(out)
 
 
 def run_one(case, mod=None):
@@ -641,7 +675,10 @@ def finish(prop, mod, tier, args, results, viol_docs, t_start):
             ' the sequence of (chosen task/message label, number of '
             'alternatives) over the whole run; non-trivial = the run '
             'satisfied the per-property predicate nontrivial() (by default:'
-            ' at least two steps with more than one enabled alternative).',
+            ' at least two steps with more than one enabled alternative). '
+            'distinct_states = distinct digests of the committed global '
+            'state after each commit (multiset of table, row name, state, '
+            'accepted/processed flags; ids, data and time left out).',
             'samples': samples,
             'ok_runs': len(ok),
             'inconclusive_runs': len(inconcl),
